@@ -246,7 +246,16 @@ fn main() {
             let uniq = std::cell::RefCell::new(wid * 1_000_000_000);
             let st = std::cell::RefCell::new((0u64, HashSet::<u64>::new(), Vec::<serde_json::Value>::new(), false, BTreeMap::<String, u64>::new()));
             let res = runner.run(&case_strategy(npairs, None), |c| {
-                let viols = check(&sink, &c, &mut uniq.borrow_mut());
+                // a panic that escapes from the tracing calls around the twins (context guards,
+                // flush) is itself a finding: the annotated call left the thread's tracing state
+                // inconsistent (the calls inside the twins are already under catch_unwind)
+                let viols = match std::panic::catch_unwind(std::panic::AssertUnwindSafe(|| check(&sink, &c, &mut uniq.borrow_mut()))) {
+                    Ok(v) => v,
+                    Err(p) => {
+                        let msg = p.downcast_ref::<String>().cloned().or_else(|| p.downcast_ref::<&str>().map(|s| s.to_string())).unwrap_or_default();
+                        vec![Viol { sig: "tracing-state-corrupted-after-call".into(), msg: format!("pair f{}: a tracing call made around the annotated call panicked: {}", c.pair, msg) }]
+                    }
+                };
                 let unknown: Vec<&Viol> = viols.iter().filter(|v| !known.contains(&v.sig)).collect();
                 let mut s = st.borrow_mut();
                 if !s.3 {
@@ -286,7 +295,8 @@ fn main() {
             let s = st.into_inner();
             let mut failure = serde_json::Value::Null;
             if let Err(TestError::Fail(reason, c)) = &res {
-                let viols = check(&sink, c, &mut uniq.borrow_mut());
+                let viols = std::panic::catch_unwind(std::panic::AssertUnwindSafe(|| check(&sink, c, &mut uniq.borrow_mut())))
+                    .unwrap_or_else(|_| vec![Viol { sig: reason.to_string(), msg: "a tracing call made around the annotated call panicked".into() }]);
                 let pair = &generated::PAIRS[c.pair];
                 failure = json!({"signature": reason.to_string(), "program": {"case": c, "spec": serde_json::from_str::<serde_json::Value>(pair.spec).unwrap()},
                     "violations": viols.iter().map(|v| json!({"sig": v.sig, "msg": v.msg})).collect::<Vec<_>>()});
